@@ -723,7 +723,17 @@ func (w *World) exec(th *Thread, fr *frame, instr ssa.Instruction) {
 		w.jump(fr, fr.block.Succs[0])
 	case *ssa.Defer:
 		fn, args := w.prepareCall(fr, &in.Call)
-		fr.defers = append(fr.defers, &deferred{fn: fn, args: args, instr: in})
+		target := fr
+		if in.DeferStack != nil {
+			// go1.23: a defer reached through a range-over-func body belongs to the defer stack of the function
+			// that owns the loop, whose handle was obtained there with ssa:deferstack
+			if o, ok := w.get(fr, in.DeferStack).(*Opaque); ok && o != nil {
+				if owner, ok := o.v.(*frame); ok && owner != nil {
+					target = owner
+				}
+			}
+		}
+		target.defers = append(target.defers, &deferred{fn: fn, args: args, instr: in})
 		fr.pc++
 	case *ssa.Go:
 		w.execGo(th, fr, in)
@@ -1395,6 +1405,13 @@ func (w *World) callBuiltin(th *Thread, b *ssa.Builtin, args []Value, site ssa.I
 		return Iface{}
 	case "panic":
 		panic(w.unsupported("builtin panic as value"))
+	case "ssa:deferstack":
+		// handle of the enclosing function's defer stack (go1.23 lowering of defers reached through loops): every
+		// the handle is the frame itself
+		if fr := th.top(); fr != nil {
+			return &Opaque{kind: "deferstack", v: fr}
+		}
+		return &Opaque{kind: "deferstack"}
 	case "ssa:wrapnilchk":
 		recv := args[0]
 		if p, ok := recv.(Ptr); ok && p == nil {
